@@ -155,6 +155,10 @@ class ShardedIterable(types.Recoverable, Iterable[_T]):
       raise ValueError(f'num_shards must be positive, got {self._shard_state=}')
 
   def shard(self, shard_index: int, num_shards: int) -> Self:
+    # Sharding a shard takes every num_shards-th element of this shard.
+    parent = self._shard_state
+    shard_index = parent.shard_index + shard_index * parent.num_shards
+    num_shards = parent.num_shards * num_shards
     return dc.replace(self, _shard_state=ShardConfig(shard_index, num_shards))
 
   @property
